@@ -364,7 +364,7 @@ impl Vt {
                     }
                 }
             }
-            ".rawtrigger" => {
+            ".rawtrigger" | ".rawtrigger_stmt" => {
                 let mut it = arg.splitn(5, char::is_whitespace);
                 let mut next = |w: &str| it.next().filter(|s| !s.is_empty()).ok_or(format!(
                     "missing {w}; usage: .rawtrigger <name> <BEFORE|AFTER|INSTEAD> <INSERT|UPDATE|DELETE> <table> <sql...>"));
@@ -383,7 +383,8 @@ impl Vt {
                 };
                 let table = ident(next("table")?);
                 let sql = next("sql")?.trim().to_string();
-                let def = TriggerDefinition::new(name, timing, event, table, TriggerGranularity::Row, None, TriggerAction::RawSql(sql));
+                let granularity = if cmd == ".rawtrigger_stmt" { TriggerGranularity::Statement } else { TriggerGranularity::Row };
+                let def = TriggerDefinition::new(name, timing, event, table, granularity, None, TriggerAction::RawSql(sql));
                 println!("TRIGGER {def:?}");
                 self.db.catalog.create_trigger(def).map_err(|e| format!("{e} | {e:?}"))?;
                 println!("OK");
